@@ -2311,6 +2311,12 @@ impl SctpInner {
                 received_queue.retain(|&tsn, _| tsn > new_cumulative_tsn);
             }
 
+            // A message whose fragments were partly skipped can no longer be
+            // completed: forget what was collected of it.
+            for dc in self.data_channels.lock().iter().filter_map(|w| w.upgrade()) {
+                dc.reassembly_buffer.lock().clear();
+            }
+
             // Advance SSNs for ordered streams
             if !stream_ssn_pairs.is_empty() {
                 let mut streams = self.inbound_streams.lock();
@@ -2801,6 +2807,11 @@ impl SctpInner {
                     );
                 }
                 buffer.clear();
+            } else if buffer.is_empty() {
+                // The beginning of this message was skipped by a FORWARD-TSN
+                // (PR-SCTP): drop the orphaned fragment instead of completing a
+                // truncated message from it.
+                return Ok(());
             }
             buffer.extend_from_slice(&user_data);
             if e_bit {
